@@ -6,7 +6,8 @@ Driver for identity resolution (C11).
 
   ident <oracle> <files in wire format>
       -> ok <item>* ; <error>*          every token hex encoded, items and errors sorted, errors de-duplicated
-         item  = root>module:name=module:name,…      one per identity statement of every loaded (sub)module,
+         item  = root>module:name=module:name,…      one per identity statement of every loaded (sub)module
+                                                     (root = its name@latest-revision),
                                                      Values in model order
                | @root:leaf=module:name | @root:leaf=-   identityref leaves (as ToEntry(root) resolves them)
          error = file:line:col:class
@@ -40,7 +41,7 @@ def identityItems (r : Registry) (res : Result) : List String :=
         match res.dict.get? v.key with
         | some e => if e.root == m.seq && e.idx == i then res.vals e.vtx else []
         | none => []
-      m.name ++ ">" ++ vtxText v ++ "=" ++ ",".intercalate (vals.map vtxText)
+      m.fullName ++ ">" ++ vtxText v ++ "=" ++ ",".intercalate (vals.map vtxText)
 
 def leafItems (leaves : List (String × String × Except Err DEntry)) : List String :=
   leaves.map fun (root, leaf, res) =>
@@ -92,7 +93,7 @@ def runSpec (files : List SrcFile) (items : List String) (nErrors : Nat) : Strin
   | .ok r =>
     match parts r, graph r with
     | some ps, some G =>
-      let partNames := ps.map (·.name)
+      let partNames := ps.map (·.fullName)
       let vals := (items.filterMap parseIdentityItem).filterMap fun (root, v, l) =>
         if partNames.contains root then some (v, l) else none
       let leaves := items.filterMap parseLeafItem
